@@ -90,8 +90,10 @@ def aggregate(H=3, W=3, disps=(0, 1), subpix=1, len_arms=2, offset=0, cap=120, b
     def h():
         shapes = {}
         calls = []
+        passed = []
 
         def stub_cross(image, len_arms_, intensity_):
+            passed.append((int(len_arms_), float(intensity_)))
             n = len(calls)
             hh, ww = image.shape
             a = S.fresh_array('arms%d' % n, (hh, ww, 4), 'i2'); shapes['arms%d' % n] = ((hh, ww, 4), 'i2')
@@ -161,7 +163,8 @@ def aggregate(H=3, W=3, disps=(0, 1), subpix=1, len_arms=2, offset=0, cap=120, b
         al = calls[first]; ars = calls[first + 1:first + 1 + subpix]
         ex['arms'] = [c_.tolist() for c_ in calls[first:first + 1 + subpix]]
         ex['first_arms'] = [c_.tolist() for c_ in calls[:first]]
-        props = []
+        props = [("cross-supports-are-computed-with-the-configured-distance-and-intensity", z3.BoolVal(all(p_ == (len_arms, 5.0) for p_ in passed[:len(calls)])))]
+        ex['passed'] = passed[:6]
         for k, d in enumerate(ds):
             arr = ars[nshift(d)]
             for r in range(H):
@@ -221,7 +224,10 @@ def replay(cex):
     seq = [np.array(a_, dtype=np.int16) for a_ in x.get('first_arms', [])] + arms_list
     calls = {'n': 0}
 
+    passed = []
+
     def stub_cross(image, len_arms_, intensity_):
+        passed.append((int(len_arms_), float(intensity_)))
         a_ = seq[calls['n']] if calls['n'] < len(seq) else np.zeros(image.shape + (4,), np.int16)
         calls['n'] += 1
         return a_.copy()
@@ -245,6 +251,8 @@ def replay(cex):
     al = arms_list[0]; ars = arms_list[1:]
     nshift = lambda d: int(round((d % 1) * subpix))
     bad = []
+    if any(p_ != (x['len_arms'], 5.0) for p_ in passed):
+        bad.append('cross_support called with (distance, intensity) %s, configured (%d, 5.0) on a %dx%d image' % (sorted(set(passed)), x['len_arms'], H, W))
     Hc, Wc = H - 2 * offset, W - 2 * offset
     for k, d in enumerate(ds):
         arr = ars[nshift(d)]
